@@ -51,7 +51,10 @@ def _prepare_fixtures():
     out = os.path.join(CACHE, "fixtures")
     src = os.path.join(VERIF, "fixtures")
     os.makedirs(os.path.join(out, "src"), exist_ok=True)
-    shutil.copyfile(os.path.join(src, "Cargo.toml"), os.path.join(out, "Cargo.toml"))
+    with open(os.path.join(src, "Cargo.toml")) as fh:
+        toml = fh.read().replace("REPO/", REPO.rstrip("/") + "/")
+    with open(os.path.join(out, "Cargo.toml"), "w") as fh:
+        fh.write(toml)
     shutil.copyfile(os.path.join(src, "src", "lib.rs"), os.path.join(out, "src", "lib.rs"))
     shutil.copyfile(os.path.join(REPO, "Cargo.lock"), os.path.join(out, "Cargo.lock"))
     return out
